@@ -582,6 +582,11 @@ def _sentinel(ctx, E, shared, validated):
     oro = rm(1, amp=0.01)[0] if orog else np.zeros(ms)
     trefs = [np.full(n, t0 * float(rng.uniform(0.8, 1.1))), t0 * np.linspace(*sorted(rng.uniform(0.6, 1.2, 2)), n),
              t0 * rng.uniform(0.6, 1.2, n)]
+    if t0 > 50:
+      # a profile given with an INTEGER dtype (whole kelvins in an int array) is the same reference temperature as its
+      # float copy: no coefficient may be truncated on the way into the implicit weights
+      trefs.append(np.round(t0 * np.linspace(0.72, 1.08, n)).astype(np.int64))
+      ctx.dist['search-int-dtype-profile'] += 1
     eq_args = (grid, coords, specs, oro)
     inp = dict(scenario=si, grid=_spec_name(spec), radius=radius, boundaries=b.tolist(), orography=orog,
                specs='from_si' if use_si else dict(R=specs.R, R_vapor=specs.R_vapor, Cp_vapor=specs.Cp_vapor,
